@@ -2,7 +2,7 @@ From Coq Require Import Extraction ExtrOcamlBasic.
 From SV Require Import Bytes Base64 Client Transport Server RenameAbs Spec Driver.
 Extraction Language OCaml.
 Extraction "extract/ms_model.ml"
-  rename_abs_run spec_op model_step canned_step mworld0 mk_server srv_react srv_connect srv_tls
+  rename_abs_run spec_op capabilities_bytes model_step canned_step mworld0 mk_server srv_react srv_connect srv_tls
   parse_command command_bytes select_mech b64_encode b64_decode dec num_of_digits
   c_init render_reply mk_reply splitlines split_ws1 split_ws strip_ws strip_dq quote unescape_q
   scan_quoted scan_size scan_status escape_q decode_oauth split_nul oauth_token.
